@@ -27,6 +27,11 @@ claimed["C20"] = dict(
    note="Trusted: govc and the SMT solvers; the meta-theorem that lock-invariant reasoning is sound for sync.Mutex under the Go memory model (data-race freedom of guarded fields follows from 'accessed only while holding the lock'); assumed contract of os/exec: exec.Command(argv).Run() starts the process once and returns an arbitrary error. That cmd/gomacro.go:saveOutputs shares only the Formatters value between its goroutines is read from the source, not proved. The bounded harness (stub tools, 24 concurrent requests, go test -race) is the replay/stand-in only.",
    ref="DESIGN §4 C20")
 
+claimed["C07"] = dict(
+   text="Sequential Go is deterministic except at an enumerable set of sources (range over a map, select, go statements, math/rand, time.Now, ...). Every run enumerates them from the typed AST of all loaded packages; each must be covered by a rule whose obligations are generated from the real code and discharged by SMT: `commute` (symbolic double execution: the loop body run for two distinct keys in both orders from one arbitrary state ends in equal states) or `sorted-after` (each iteration only appends at most one element to one slice, which the next statement sorts with an order that is total on the appended elements). A source with no rule is itself a failed obligation. Sources covered only by a written argument (recursive closures over the import graph, iterations touching disjoint objects through contracts, the formatter goroutines) are listed as argued, are NOT counted as discharged, and are exercised by an always-run bounded check (all targets generated repeatedly in one process from four sources, byte-compared).",
+   note="Trusted: govc and the SMT solvers; the meta-argument that a loop whose iterations pairwise commute (or whose only effect is a multiset sorted by a total order) is independent of iteration order; sort.Slice/sort.Sort/sort.Strings deterministic; distinct package-level named types have distinct qualified names; setImplements' table invariant accu[N].name == N; packages.Load / go list and the external formatters deterministic. Cross-process determinism follows from the same argument (no source reads process state) and is not separately exercised. 8 of 18 sources are argued, not proved (listed in the evidence).",
+   ref="DESIGN §4 C07")
+
 not_applicable = {
  "C01": "type-checking of emitted Go text for all inputs needs a typing judgement over Sprintf templates; no contract on a Go function returning a string can express it (DESIGN §5)",
  "C02": "round trip and wire bytes are run-time behaviour of the emitted wrappers under encoding/json; a contract on the generator can only restate its templates (DESIGN §5)",
